@@ -462,10 +462,10 @@ def run(ck, only=None):
                    "block hash, payload): the ROM model must refuse it or a signature obligation must fail; a loader with different access rights must not decode the same commands; "
                    "non-trivial = distinct (file, position)")
     targets = [16 * k for k in range(1, 52)]  # 16 .. 816: every 16-byte residue through three blocks (256, 512, 768 boundaries +- 16)
-    n_rand = ck.budget(250, 12000)
+    n_rand = ck.budget(250, 8000)
     plan = [("boundary", t) for t in targets] + [("random", None)] * n_rand + [("big", None)] * ck.budget(6, 200)
     if not ck.quick:
-        plan += [("boundary", t) for t in targets] * 20
+        plan += [("boundary", t) for t in targets] * 12
     for cls, target in plan:
         if cls == "big":
             target = 16 * rng.randrange(64, 4096)
